@@ -389,6 +389,8 @@ class Interp:
         f = fr
         while f is not None:
             if name in f.locals:
+                if f.locals[name] is LOOP_CARRIED:
+                    raise Unsupported(f"local {name} is read after a summarised loop that assigns it")
                 return f.locals[name]
             f = f.parent
         if name in fr.globals:
@@ -396,6 +398,15 @@ class Interp:
         b = self.lib.builtins.get(name)
         if b is not None:
             return b
+        # a name the compiler made a local of the running function (it is assigned somewhere in its body) and that no executed
+        # statement has bound yet: Python raises UnboundLocalError (NameError for a free variable of an enclosing function)
+        f, inner = fr, True
+        while f is not None and not fr.spec:
+            if isinstance(f.func, FuncVal):
+                if name in function_locals(f.func):
+                    raise RaiseSig(self.make_exc("UnboundLocalError" if inner else "NameError"))
+                inner = False
+            f = f.parent
         raise Unsupported(f"unbound name {name}")
 
     def ev_Name(self, n, fr):
